@@ -113,7 +113,7 @@ class C05(Sim):
             "interleaving hash); non-trivial = at least one accepted write and one container growth with an attribute alive")
     FAULT_KINDS = ["reject"]
     PROBES = ["index==size", "mutate_default", "extend_by_container", "rejected_write", "read_default", "grow_with_dense",
-              "attr_clear", "container_clear", "widening_write", "vector_attr", "custom_default", "corner_container"]
+              "attr_clear", "container_clear", "widening_write", "vector_attr", "custom_default", "corner_container", "copy_entry"]
     QUICK_RUNS = 8000
     THOROUGH_RUNS = 1500000
     BLOCK = 100
@@ -238,7 +238,10 @@ class C05(Sim):
             i = self._idx(r, n)
             if i is None:
                 return {"c": c, "op": "append", "k": k}
-            op = r.wchoice(["set", "set_widen", "iupd", "mutread"], [6, 2, 2, 3])
+            op = r.wchoice(["set", "set_widen", "iupd", "mutread", "copy_entry"], [6, 2, 2, 3, 2])
+            if op == "copy_entry":
+                # a value obtained by READING one entry is written to another entry (a[j] = a[i])
+                return {"c": c, "op": "copy_entry", "k": k, "name": name, "i": i, "j": self._idx(r, n)}
             if op == "set_widen":
                 srcs = [tv for tv in TYPES if (tv, a.t) in CASTS]
                 if srcs:
@@ -347,6 +350,8 @@ class C05(Sim):
         n = len(self.refs[k].items) if k is not None else 0
         if op in ("set", "get", "iupd", "mutread", "set_bad"):
             return 0 <= ev["i"] < n
+        if op == "copy_entry":
+            return 0 <= ev["i"] < n and 0 <= ev["j"] < n
         if op in ("oob_get", "oob_set"):
             # keep the index out of bounds relative to the *current* size
             return True
@@ -513,6 +518,21 @@ class C05(Sim):
                     self.exc_violation("in-place-update", op, o, "%s:%s/%d" % (w, a.t, a.arity))
             old = a.get(i)
             a.data[i] = (old + inc) if a.arity == 1 else [x + inc for x in (old if isinstance(old, list) else [old] * a.arity)]
+            self.accepted += 1
+            check = True
+        elif op == "copy_entry":
+            a = ref.attrs[ev["name"]]
+            s, d = self.handles[(k, ev["name"])]
+            i, j = ev["i"], ev["j"]
+            self.probes["copy_entry"] += 1
+
+            def cp(attr):
+                attr[j] = attr[i]
+            for o, w in ((call(cp, s), "sparse"), (call(cp, d), "dense")):
+                if not o.ok:
+                    self.exc_violation("accept-widening", op, o, "%s:%s/%d" % (w, a.t, a.arity), "a[j] = a[i] rejected the attribute's own value")
+            v = a.get(i)
+            a.data[j] = list(v) if isinstance(v, list) else ([v] * a.arity if a.arity > 1 else v)
             self.accepted += 1
             check = True
         elif op == "mutread":
